@@ -215,6 +215,9 @@ func fmtKV(l []kv) string {
 
 func run(c Sx) Result {
 	l := AsList(c)
+	if len(l) == 3 && AsInt(l[0]) == 2 {
+		return runHistory(l)
+	}
 	if len(l) != 8 {
 		panic("hxlib: bad case")
 	}
@@ -612,12 +615,15 @@ func gen(r *Rng, tier string, emit func(Sx)) {
 	for i := 0; i < n; i++ {
 		emit(genCase(r, 12))
 	}
+	for i := 0; i < n*3/5; i++ {
+		emit(genHistory(r))
+	}
 }
 
 func main() {
 	Main(Family{
 		ID: "C22",
-		Rule: "random layer stacks (0..12 diff layers over a universe of 2..30 hashes of mixed shapes incl. zero, trailing-zero, adjacent and all-ones hashes, so clashes between layers are frequent): account create/modify/delete, storage write/delete, account destruct (all known slots nil) and destruct+recreate in one block; 1/8 of the cases adversarial (empty non-nil blobs); a Commit after a random prefix of layers (disk-only, disk+diffs, diffs-only), then optionally cap(head, 1..4) which aggregates lower layers into the disk layer's buffer (or flushes them when the write buffer size is 0); random seek (zero, a key, key+-1, random); account and storage iterators; pathdb fast (Database.AccountIterator/StorageIterator) and binary iterators, and the legacy snapshot.Tree fast iterators (1/5 of cases). Non-trivial: >= 2 layers, some key present in >= 2 layers, non-empty expected output; distinct = distinct case line.",
+		Rule: "random layer stacks (0..12 diff layers over a universe of 2..30 hashes of mixed shapes incl. zero, trailing-zero, adjacent and all-ones hashes, so clashes between layers are frequent): account create/modify/delete, storage write/delete, account destruct (all known slots nil) and destruct+recreate in one block; 1/8 of the cases adversarial (empty non-nil blobs); a Commit after a random prefix of layers (disk-only, disk+diffs, diffs-only), then optionally cap(head, 1..4) which aggregates lower layers into the disk layer's buffer (or flushes them when the write buffer size is 0); random seek (zero, a key, key+-1, random); account and storage iterators; pathdb fast (Database.AccountIterator/StorageIterator) and binary iterators, and the legacy snapshot.Tree fast iterators (1/5 of cases). Non-trivial: >= 2 layers, some key present in >= 2 layers, non-empty expected output; distinct = distinct case line. Plus HISTORY cases (3/5 as many): one pathdb database driven through 4..28 operations over 1..3 accounts and 3..8 slot hashes — Update (mostly slot writes / deletions / destructs on accounts the buffer already tracks), cap(head,1..3) merging lower layers into the disk layer's buffer (2/3 with a large write buffer so nothing flushes; sync and async flush), Commit, and iterations (account and per-account storage, full and seeked, fast and binary, at the head or up to 4 layers below it, down to the disk layer) at random points in between, so iterate / merge-into-buffer / iterate-again sequences are frequent; every enumeration is compared with the reference state of that layer root and with point reads (StateReader.AccountRLP/Storage). Non-trivial history: >= 2 layers, >= 2 iterations, one of them non-empty.",
 		Gen: gen,
 		Run: run,
 	})
